@@ -212,6 +212,10 @@ def run(ctx: Ctx):
         for e in t:
             e.pop("raw", None)
     ctx.validate_traces("Trace_EzspCmd", traces, constants=c, invariants=INVS, metas=metas, label="commands", sig=sig)
+    # the same statements end to end: the composed host stack (Stack.tla) against a faulty line and a conforming NCP
+    from . import stackx
+    stackx.model_check(ctx, "commands")
+    stackx.run_traces(ctx, "commands")
     ctx.exhaustive = False
     ctx.assumptions += ["fake gateway (send_data completes, fails or stays pending as scripted); the harness plays a conforming NCP at frame level",
                         "response payloads are encoded with the version's own schema (codec fidelity is C07)",
@@ -224,6 +228,9 @@ def _run(job):
 
 
 def replay(ctx: Ctx, data):
+    if data["replay"].get("module") == "Trace_Stack":
+        from . import stackx
+        return stackx.replay(ctx, data)
     m = data["replay"]["meta"]
     a = m["args"]
     tr = _run((m["kind"], (a[0], a[1], a[2], tuple(a[3]) if len(a) > 3 and a[3] else None) if m["kind"] == "e" else tuple(a)))
